@@ -22,3 +22,5 @@ import GlareModel.Core.Like
 import GlareModel.Core.Str
 import GlareModel.Props.C20
 import GlareModel.Props.C05
+import GlareModel.Core.Csv
+import GlareModel.Props.C17
